@@ -17,7 +17,7 @@ func init() {
 		ID: "C05", Fn: c05, Race: false,
 		Rule:        "one evaluation = one search observed through our own UciDriver (exactly what a GUI is sent) and LastSearchResult: best move legal in the root (refchess), ponder move legal after it, every iteration PV and the final PV a playable legal sequence starting with the best move, caller's position unchanged, search returns; workload = positions incl. in-check / single-move / long-history / repetition-loaded / 50-move-edge roots x limit modes (depth, nodes, movetime, clock, infinite+stop, ponder+stop, ponder+ponderhit) x random subsets of all search switches x stop moments (node limit swept 1..N, asynchronous StopSearch after seeded delays) x warm tables (chains of searches on one Search without NewGame, 1 MB hash); distinct = distinct (root identity, limit, configuration mask, chain position)",
 		Assumptions: []string{"refchess legality", "non-termination is judged by the per-shard watchdog and goroutine dump, see DESIGN 1.2"},
-		Required:    []string{"searches", "mode_depth", "mode_nodes", "mode_movetime", "mode_clock", "mode_infinite_stop", "mode_ponder_stop", "mode_ponder_hit", "pv_lines_validated", "pv_len_ge_3", "ponder_moves_validated", "warm_table_searches", "stopped_mid_iteration", "tt_cut_searches", "roots_in_check", "roots_single_move", "roots_with_history", "node_sweep_searches", "roots_drawn_by_history"},
+		Required:    []string{"searches", "mode_depth", "mode_nodes", "mode_movetime", "mode_clock", "mode_infinite_stop", "mode_ponder_stop", "mode_ponder_hit", "pv_lines_validated", "pv_len_ge_3", "ponder_moves_validated", "warm_table_searches", "stopped_mid_iteration", "tt_cut_searches", "roots_in_check", "roots_single_move", "roots_with_history", "node_sweep_searches", "roots_drawn_by_history", "roots_fifty_move_edge"},
 		MinEvals:    1000,
 		TimeoutQ:    20 * 60e9,
 		TimeoutT:    120 * 60e9,
@@ -243,6 +243,9 @@ func c05(c *Ctx) {
 			// the node cap only bounds the cost of pathological configurations (stand-pat off on a
 			// board full of promoting pawns): it is far above what an ordinary depth 6 search needs
 			lim = search.Limits{Depth: 1 + r.Intn(6), Nodes: 1500000}
+			if root.kind == "fifty-move-edge" {
+				lim.Depth = 4 + r.Intn(5) // deep enough for lines that run into the rule
+			}
 		case "nodes":
 			lim = search.Limits{Nodes: nodeLimit, Depth: 8}
 		case "movetime":
@@ -310,6 +313,18 @@ func c05(c *Ctx) {
 		case 2: // long history
 			steps = playout(r, start, 60+r.Intn(200), Bias{Capture: 0.3, Castle: 5, Promo: 3, Ep: 8, Double: 1, KingRook: 2, Shuffle: 3})
 			kind = "long-history"
+		case 3: // the fifty-move rule within the horizon: a start FEN with a high half-move clock
+			sb := *start
+			sb.Half, sb.Ep = 86+r.Intn(14), -1
+			if sb.Full < 60 {
+				sb.Full = 60 + r.Intn(40)
+			}
+			if sb.Validate() == nil {
+				start = &sb
+				rep.Inc("roots_fifty_move_edge")
+			}
+			steps = playout(r, start, r.Intn(6), Bias{Capture: 0.2, Castle: 1, Promo: 1, Ep: 1, Double: 0.2, KingRook: 2, Shuffle: 4})
+			kind = "fifty-move-edge"
 		default:
 			steps = playout(r, start, r.Intn(40), defaultBias)
 		}
